@@ -11,7 +11,7 @@
 from ..facts import AnalysisBroken, short
 from ..paths import path, pstr, last_field, root_var_id, fields_in
 from ..effects import USER_INVOKE, USER_COPY, ALLOC, UNKNOWN, classify_callee
-from .qcommon import TUInfo, is_lifetime, CONTAINER_CALLEES, SLOT_CLASSES
+from .qcommon import TUInfo, is_lifetime, CONTAINER_CALLEES, SLOT_CLASSES, QUEUES, queue_of
 
 EXPLANATION = ('C09: every call site that may throw (allocation, user callable, user copy) is enumerated from the call graph and classified '
                'against the commit point of each strong-guarantee operation; noexcept functions reach no fault point; locks/counters only through '
@@ -65,6 +65,7 @@ def check(ctx):
     ctx.rule('C09.R', 'locks only through scope objects; traversal and dispatch write no container state')
     ctx.rule('C09.D', 'delegating copy constructor; copy-and-swap assignment')
     ctx.rule('C09.P', 'placement construction precedes publication of the slot destructor')
+    ctx.rule('C09.T', 'calls that consume at most one event take at most one event out of the queue (what a throwing listener can lose)')
     fault_table = {}
     for tu in ctx.tus:
         info = TUInfo(tu)
@@ -76,12 +77,56 @@ def check(ctx):
         check_raii(ctx, tu, info, mut)
         check_copy(ctx, tu, info)
         check_placement(ctx, tu, info, 'C09.P')
+        check_take_width(ctx, tu, info)
+    ctx.require_min('C09.T', 3)
     ctx.extra['fault_points'] = {k: sorted(v)[:12] for k, v in sorted(fault_table.items())}
     ctx.require_min('C09.C', 30)
     ctx.require_min('C09.N', 15)
     ctx.require_min('C09.R', 8)
     ctx.require_min('C09.D', 3)
     ctx.require_min('C09.P', 2)
+
+
+# What an exception escaping a processing call may discard is what that call had taken out of the queue. The calls that hand exactly
+# one event to user code (processOne, takeEvent) must therefore take exactly one element - a whole-list take (swap / whole-list splice),
+# directly or through a sibling such as processUntil, would put every pending event at the mercy of one throwing listener.
+ONE_EVENT_CALLS = ('processOne', 'takeEvent')
+
+
+def take_width(info, f, depth=0, seen=None):
+    """[(function, node, 'single'|'whole')] for every take out of this.queueList made by f or by the queue members it calls."""
+    from .c05 import takes_of
+    seen = seen if seen is not None else set()
+    if f.id in seen or depth > 4:
+        return []
+    seen.add(f.id)
+    out = []
+    for w in takes_of(info, f):
+        n = w['node']
+        meth = (f.callee(n) or {}).get('name', '')
+        nargs = len([a for a in f.call_args(n) if f.nodes[a]['cls'] != 'CXXDefaultArgExpr']) if f.is_call(n) else 0
+        out.append((f, n, 'single' if meth == 'splice' and nargs == 3 else 'whole'))
+    for n in f.calls():
+        cal = f.callee(n)
+        if cal and cal.get('lib') and cal.get('fid', -1) in f.tu.by_id:
+            g = f.tu.by_id[cal['fid']]
+            if queue_of(g) and g.id != f.id:
+                out += take_width(info, g, depth + 1, seen)
+    return out
+
+
+def check_take_width(ctx, tu, info):
+    for q in QUEUES:
+        for f in info.members(q):
+            if f.kind == 'lambda' or f.name not in ONE_EVENT_CALLS or f.outermost().id != f.id:
+                continue
+            tw = take_width(info, f)
+            wide = [(g, n) for g, n, k in tw if k == 'whole']
+            ctx.ob('C09.T', f, '%s takes at most one element out of the queue list (directly or through the members it calls)' % f.name,
+                   bool(tw) and not wide,
+                   detail='takes found: %d; whole-list takes at %s - an exception escaping the single dispatch would discard every pending event'
+                          % (len(tw), ', '.join('%s (%s)' % (g.nloc(n), g.name) for g, n in wide[:3])),
+                   key_detail='take width')
 
 
 class Mutation:
